@@ -23,6 +23,10 @@ def extra_checks(ft, tier, seed):
                                "composition of the per-function contracts through the public API (A-META on the class corpus; "
                                "update/transform/element helpers/chains not under contract here)",
                                "4 corpus classes (plain, frozen twin, spec subclass, plain subclass) x 5 reachable states x ~87 helper calls with valid and invalid arguments"))
+    out.append(harness.standin("standin.extra-corpus", "bounded/spec_extra.py", ["--find", PROPERTY, "-", os.path.join(harness.VERIF, "replays", PROPERTY)],
+                               "usages outside the main corpus (tuple-valued attributes, nested updates failing half-way, containers with mutable values, "
+                               "keyed containers handed in whole, update_<attr>() with nothing to apply, chains of cached properties)",
+                               "the hand-written cases of bounded/spec_extra.py registered for this property"))
     for f in FINDINGS:
         r = harness.run_json("bounded/spec.py", ["--finding", f])
         if r.get("reproduces"):
